@@ -32,10 +32,16 @@ pub fn bind_paths() -> (String, String) {
     (format!("{}/target/bind/release/simple-irc-server", v), dir)
 }
 
+pub const PART_WALL_CEILING_S: f64 = 150.0;
+
 pub fn lim(depth: usize, max_states: u64, max_secs: f64) -> Limits {
     // VERIF_DEPTH_DELTA: experiment knob (not used by registered commands)
     let delta: i64 = std::env::var("VERIF_DEPTH_DELTA").ok().and_then(|s| s.parse().ok()).unwrap_or(0);
     let depth = (depth as i64 + delta).max(1) as usize;
+    // one wall-clock ceiling for every E-SEQ part of the thorough tier, so that the whole
+    // thorough sweep of twenty properties stays runnable (and was run) in one sitting; the
+    // depth bound is unchanged, a part that reaches the ceiling reports the last depth it closed
+    let max_secs = max_secs.min(PART_WALL_CEILING_S);
     Limits {
         depth,
         max_states,
